@@ -978,7 +978,7 @@ Proof.
   - cbn [ref_lines_ok]. unfold ref_line_ok, ref_has_bare_cr. rewrite Hb, Hnc, Hnotcr.
     rewrite !andb_false_r. cbn [negb andb orb]. now rewrite orb_true_r.
   - cbn [ref_group_text]. exact Htext.
-  - unfold ref_field. cbn [ref_group_text]. rewrite Htext. unfold ref_split, body.
+  - unfold ref_field. cbn [ref_group_text]. rewrite Htext. unfold ref_split, body. cbn [app].
     rewrite (before_colon_name _ _ Ht).
     assert (Hlast : last_is c_isspace (he_name e) = false).
     { destruct (last_is c_isspace (he_name e)) eqn:El; [|reflexivity].
@@ -989,7 +989,8 @@ Proof.
     replace (65534 <? lenN (he_name e)) with false by lia. rewrite Ht. cbn [orb negb].
     assert (Hv : ref_trim (32 :: he_value e) = he_value e).
     { unfold ref_trim. rewrite trim_right_rtrim, trim_left_ltrim.
-      replace (ltrim (32 :: he_value e)) with (ltrim (he_value e)) by (unfold ltrim; reflexivity).
+      replace (ltrim (32 :: he_value e)) with (ltrim (he_value e))
+        by (unfold ltrim; cbn [span]; change (c_isspace 32) with true; cbv iota; destruct (span c_isspace (he_value e)); reflexivity).
       now rewrite Hlt, Hrt. }
     rewrite Hv. replace (65534 <? lenN (he_value e)) with false by lia.
     rewrite Hc. cbn [lenN existsb]. unfold ref_has_bare_cr. rewrite Hb, Hnc. cbn [orb andb N.ltb].
